@@ -24,8 +24,6 @@ import c05x_util as X5
 import extgen
 from c05x_util import tlv, der_int
 
-F_OWN = "C03-xer-unknown-addition-named-like-enclosing"
-
 # ------------------------------------------------------------------ XML trees
 # node: ("e", name, [kids]) element | ("b", name) empty-element tag | ("t", text) text (already escaped)
 #       ("u", N, kind, [nodes]) an extensions section: the nodes are UNKNOWN to the reader, the enclosing element is called N,
@@ -220,12 +218,6 @@ def random_forest(h, rng, maxdepth=6):
             return ("e", n, [("t", rng.choice(["1", "text", "a&amp;b", " "]))] if rng.chance(1, 2) else [])
         return ("e", n, [tree(d + 1 + rng.below(2)) for _ in range(rng.range(1, 3))])
     return [tree(0, root=True) for _ in range(rng.range(1, 3))]
-
-
-def own_is_encl(forest, N, kind):
-    """the classifier of finding F_OWN: an unknown addition (a ROOT of the forest) that carries the enclosing element's own name
-    and is written with separate opening and closing tags (for a CHOICE: in any form)"""
-    return any((nd[0] == "e" or (nd[0] == "b" and kind == "choice")) and nd[1] == N for nd in forest)
 
 
 # ------------------------------------------------------------------ MK7: readers, frames, DER of the known part
@@ -584,8 +576,10 @@ def skip_jobs(w, doc_bytes, ids):
     jobs = []
     for (N, kind, io, ic, nd) in w.unknown:
         ntags = sum(1 for t in w.toks[io + 1:ic + 1] if t[0] != "t")
-        ret = 2 if nd[1] == N else 1
-        cons = offs[ic + 1] - offs[io + 1] if ret == 1 else offs[ic] - offs[io + 1]
+        # answer 1 at the element's own closing tag, whatever the element is called (the enclosing element's name included:
+        # fix 01 of notes/fixes/I retired the answer 2); the caller advances over that tag
+        ret = 1
+        cons = offs[ic + 1] - offs[io + 1]
         jobs.append({"N": N, "kind": kind, "start": offs[io + 1], "ret": ret, "ntags": ntags, "cons": cons, "mtoks": model_toks(w.toks[io + 1:], N), "own": nd[1],
                      "offs": [o - offs[io + 1] for o in offs[io + 1:]]})
     return jobs
@@ -622,10 +616,7 @@ def run_cases(run, model, m, cases, rng, tier, run_mod, run_lines, tagname):
     out = run_mod(run, m, lines, tagname)
     xl, xm = [], []
     for (c, lay, doc, w), l, o in zip(meta, lines, out):
-        # (a section further inside that trips finding F_OWN ends the decode before the top-level walk is reached)
-        inner_own = sum(1 for h, fo in c["sections"] if own_is_encl(fo, h["N"], h["kind"])) > (1 if w.top_section and any(
-            h["N"] == w.top_section[0] and own_is_encl(fo, h["N"], h["kind"]) for h, fo in c["sections"][-1:]) else 0)
-        if w.top_section and len(w.toks) < 1500 and not inner_own:
+        if w.top_section and len(w.toks) < 1500:
             xl.append("xextrun 0 %s" % model_toks(w.toks[w.top_section[1]:], w.top_section[0]))
             xm.append((c, lay, doc, w, l, o))
     if xl:
@@ -662,9 +653,6 @@ def run_cases(run, model, m, cases, rng, tier, run_mod, run_lines, tagname):
         rp = {"module": m["text"], "type": c["tn"], "case": c["label"], "layout": lay, "document": doc.decode("utf-8"), "command_line": l, "c": o, "expected": exp,
               "what": "an older version of an extensible type does not skip the unknown addition(s) of a newer sender's XER document: "
                       "expected RC_OK, the full length consumed and the known part of the value"}
-        if any(own_is_encl(fo, h["N"], h["kind"]) for h, fo in c["sections"]):
-            run.known_finding(F_OWN, l[:300])
-            continue
         run.violation("oracle:xer_unknown_addition_skipped", rp)
     # the skip machine alone: C = model = the subtree
     if slines:
